@@ -159,7 +159,11 @@ def seeded(rng, alphabet, weights=None, max_len=12, ids=None, progress_p=0.5, ca
         case["debug"] = True  # the host application runs with logging at DEBUG
     if rng.random() < 0.15:
         # the peer closes its end / stops reading after the request has been written
-        case["writer"] = rng.choice(["closed", "blocked"])
+        case["writer"] = rng.choice(["closed", "blocked", "stalled", "stalled"])
+        if case["writer"] == "stalled":
+            # the peer reads again at that tick (never exactly at the deadline: a real tie)
+            su = rng.choice([rng.randint(1, D + 200), P, P + 1, 2 * P - 1, max(1, D - 1), D + 1])
+            case["stallUntil"] = su + 1 if su == D else su
     if case["progress"] and rng.random() < 0.3:
         case["cbRaises"] = sorted(set(rng.randint(0, 4) for _ in range(rng.randint(1, 3))))
         case["cbExc"] = rng.randint(0, 10)  # which exception class the failing callback raises
@@ -175,6 +179,8 @@ def shrink_candidates(case):
         yield c
     if case.get("tokenKind", "plain") != "plain":
         yield dict(case, tokenKind="plain")
+    if case.get("writer") == "stalled":
+        yield dict(case, writer="blocked")
     for key in ("cbRaises", "hasToken", "params", "writer", "debug", "eos"):
         if case.get(key):
             c = dict(case)
